@@ -117,21 +117,101 @@ SIZE_SYMS = {"_text.size()", "_text.length()", "this->_text.size()"}
 CUR = "_pos"
 
 
+def named_constants(f):
+    """{local name: value} for the `const` / `constexpr` integral locals of f with a constant initialiser (`constexpr std::size_t kHexDigits = 4`)"""
+    c = f.__dict__.get("_c13_consts")
+    if c is None:
+        c = {}
+        for e in f.stmts():
+            if e.node.get("k") == "decl":
+                for v in e.node["vars"]:
+                    t = v.get("t") or ""
+                    if "const" in t and "*" not in t and "&" not in t and isinstance(v.get("init"), dict) and const_value(v["init"]) is not None:
+                        c[v["n"]] = const_value(v["init"])
+        f.__dict__["_c13_consts"] = c
+    return c
+
+
+def fold_named(f, n):
+    """copy of expression tree n with every read of a named constant of f replaced by its value: naming a literal does not change what a rule sees"""
+    consts = named_constants(f)
+    if not consts or not isinstance(n, dict):
+        return n
+    cache = f.__dict__.setdefault("_c13_fold", {})
+    key = id(n)
+    if key in cache:
+        return cache[key][1]
+
+    def go(x):
+        if isinstance(x, dict):
+            if x.get("k") == "var" and x.get("n") in consts:
+                return {"k": "int", "cv": consts[x["n"]], "id": x.get("id"), "l": x.get("l")}
+            return {k: go(v) for k, v in x.items()}
+        if isinstance(x, list):
+            return [go(v) for v in x]
+        return x
+    res = go(n) if any(x.get("k") == "var" and x.get("n") in consts for x in walk(n)) else n
+    cache[key] = (n, res)       # keeps n alive so that id(n) stays unique
+    return res
+
+
+class JsonCursorProgram(CursorProgram):
+    """post-conditions 'per return value' also for functions that report success through an optional: `return std::nullopt` / `return {}` is the
+    failing return, `return value` the successful one (out-parameter + bool ⇄ returned optional)"""
+
+    def _value_const(self, v):
+        x = strip_casts(v) if isinstance(v, dict) else None
+        if x is not None and x.get("k") == "ctor" and x.get("cls") == "std::optional":
+            args = [a for a in x.get("args", []) if not a.get("def")]
+            if not args or (len(args) == 1 and "nullopt" in show(args[0])):
+                return 0
+            if len(args) == 1 and "optional" not in (strip_casts(args[0]).get("t") or ""):
+                return 1
+            return None
+        return CursorProgram._value_const(self, v)
+
+
+def var_written(f, name):
+    """the local / parameter `name` is assigned, stepped or has a mutating member called on it somewhere in f (other than its declaration)"""
+    from ..access import MUTATORS
+    for e in f.stmts():
+        n = e.node
+        if counter_step(n, lambda x: x.get("k") == "var" and x["n"] == name) is not None:
+            return True
+        if n.get("k") == "opcall" and is_assign(n) and strip_casts(n["args"][0]).get("k") == "var" and strip_casts(n["args"][0])["n"] == name:
+            return True
+        if n.get("k") == "mcall" and strip_casts(n.get("obj") or {}).get("k") == "var" and strip_casts(n["obj"])["n"] == name and last(n.get("callee", "")) in MUTATORS:
+            return True
+    return False
+
+
+def stable_size_symbol(f, expr, sym):
+    """sym is `<name>.size()` / `<name>.length()` of a string local or parameter of f that f never writes"""
+    for x in walk(expr):
+        if x.get("k") == "mcall" and not x.get("args") and show(x) == sym and last(x.get("callee", "")) in ("size", "length"):
+            o = strip_casts(x.get("obj") or {})
+            return o.get("k") == "var" and "basic_string" in (o.get("t") or "") and not var_written(f, o["n"])
+    return False
+
+
 def cursor_program(ctx):
     fb = ctx.fb()
     funcs = parser_methods(ctx)
     ptr_off = {}          # (function, local pointer name) -> constant offset from the cursor
+    prog_box = [None]
 
-    for f in funcs:
+    for f in [g for g in funcs] * 2:           # twice: a derived pointer may be met before its base (blocks are not in source order)
         for e in f.stmts():
             if e.node.get("k") == "decl":
                 for v in e.node["vars"]:
                     i = v.get("init")
                     if i is None or "*" not in (v.get("t") or ""):
                         continue
-                    fm = lin(i)
+                    fm = lin(fold_named(f, i))
                     if fm is not None and "_text.data()" in fm[1] and list(fm[1]).count(CUR) == 1 and len(fm[1]) == 2:
                         ptr_off[(f, v["n"])] = fm[0]
+                    elif fm is not None and len(fm[1]) == 1 and (f, fm[1][0]) in ptr_off:
+                        ptr_off[(f, v["n"])] = ptr_off[(f, fm[1][0])] + fm[0]       # `end = first + 4`: a pointer derived from a pointer into the text
 
     def local_cursor(f):
         """a local index variable used to subscript _text (e.g. the line/column scan)"""
@@ -145,7 +225,7 @@ def cursor_program(ctx):
         return out
 
     def elem_ops(f, e):
-        n = e.node
+        n = fold_named(f, e.node)
         k = n.get("k")
         ops = []
         if k == "opcall" and n.get("op") == "[]" and is_text(n["args"][0]):
@@ -168,7 +248,10 @@ def cursor_program(ctx):
             ops.append(("need", TOP, "--_pos (cursor moves backwards)"))
         elif k == "bin" and n.get("op") == "+=" and is_pos(n["lhs"]):
             fm = lin(n["rhs"])
-            if fm is None or fm[1] or fm[0] < 0:
+            if fm is not None and fm[0] >= 0 and fm[1] and all(stable_size_symbol(f, n["rhs"], sym) for sym in fm[1]):
+                # `_pos += literal.size()`: a symbolic length — discharged only where a guard established that many bytes (substr(...) == literal)
+                ops.append(("adv", fm, "_pos += %s" % show(n["rhs"])))
+            elif fm is None or fm[1] or fm[0] < 0:
                 ops.append(("need", TOP, "_pos += %s (not a non-negative constant)" % show(n["rhs"])))
                 ops.append(("reset", None))
             else:
@@ -185,6 +268,8 @@ def cursor_program(ctx):
                     nxt = lin(a[i + 1]) if i + 1 < len(a) else None
                     if nxt is not None and list(nxt[1]) == [x["n"]]:
                         ops.append(("need", form(off + nxt[0]), "%s(%s, %s + %d, …)" % (last(n.get("callee", "?")), x["n"], x["n"], nxt[0])))
+                    elif nxt is not None and nxt[0] == 0 and len(nxt[1]) == 1 and (f, nxt[1][0]) in ptr_off and ptr_off[(f, nxt[1][0])] >= off:
+                        ops.append(("need", form(ptr_off[(f, nxt[1][0])]), "%s(%s, %s, …)" % (last(n.get("callee", "?")), x["n"], nxt[1][0])))
                     else:
                         ops.append(("need", TOP, "%s reads from `%s` without an end pointer" % (last(n.get("callee", "?")), x["n"])))
                     break
@@ -192,10 +277,35 @@ def cursor_program(ctx):
             ops.append(("need", form(ptr_off[(f, strip_casts(n["v"])["n"])] + 1), "*%s" % strip_casts(n["v"])["n"]))
         return ops or None
 
+    def call_behind(f, x):
+        """the parser method whose result the tested expression x stands for: `callee(…)` itself, or a `const` local (bool / optional) that was
+        initialised with it by the statement right before the branch, so that the cursor cannot have moved between the call and the test"""
+        g = prog_box[0].callee(x) if x.get("k") in ("mcall", "call") else None
+        if g is not None:
+            return g
+        if x.get("k") == "mcall" and last(x.get("callee", "")) in ("operator bool", "has_value") and isinstance(x.get("obj"), dict):
+            x = strip_casts(x["obj"])
+        if x.get("k") != "var" or "const" not in (x.get("t") or ""):
+            return None
+        for b in f.blocks.values():
+            roots = [e for e in b.elems if e.kind == "stmt" and "root" in e.raw]
+            if b.cond is None or len(roots) < 2 or roots[-2].node.get("k") != "decl" or not any(y.get("k") == "var" and y.get("d") == x.get("d") for y in walk(b.cond)):
+                continue
+            for v in roots[-2].node["vars"]:
+                i = strip_casts(v.get("init")) if isinstance(v.get("init"), dict) else None
+                while i is not None and i.get("k") == "ctor" and i.get("copy") and len(i.get("args", [])) == 1:
+                    i = strip_casts(i["args"][0])
+                if v.get("d") == x.get("d") and i is not None and i.get("k") in ("mcall", "call"):
+                    return prog_box[0].callee(i)
+        return None
+
     def edge_ops(f, c, truth, prog):
+        prog_box[0] = prog
+        c = fold_named(f, c)
+
         def extra(x, t):
             x = strip_casts(x)
-            g = prog.callee(x) if x.get("k") in ("mcall", "call") else None
+            g = call_behind(f, x) if x.get("k") in ("mcall", "call", "var") else None
             if g is not None:
                 p = prog.post_true[g] if t else prog.post_false[g]
                 return [("atleast", p)]
@@ -209,11 +319,15 @@ def cursor_program(ctx):
                         lit = [y for y in walk(b) if y.get("k") == "str"]
                         if fm is not None and list(fm[1]) == [CUR] and len(lit) == 1 and lit[0].get("v"):
                             return [("atleast", form(fm[0] + len(lit[0]["v"].encode("utf-8"))))]
+                        bv = strip_views(b)
+                        if fm is not None and list(fm[1]) == [CUR] and not lit and bv is not None and bv.get("k") == "var" and "basic_string" in (bv.get("t") or "") and not var_written(f, bv["n"]):
+                            # equal to a string variable: the text holds at least that variable's length (substr never returns more than it is asked for)
+                            return [("atleast", form(fm[0], (bv["n"] + ".size()",)))]
             return None
         return guard_ops(c, truth, CUR, SIZE_SYMS, extra)
 
     parse = jp(ctx, "parse")
-    prog = CursorProgram(funcs, {parse: form(0)}, elem_ops, edge_ops)
+    prog = JsonCursorProgram(funcs, {parse: form(0)}, elem_ops, edge_ops)
     return prog, funcs, local_cursor
 
 
@@ -231,8 +345,10 @@ def r1(ctx, r):
     r.expect(okc, ctor[0] if ctor else JP, None, "cursor start", "the JsonParser constructor does not start _pos at 0 (entry invariant 0 <= size - _pos of the window analysis)",
              okdesc="JsonParser(): _pos(0)")
     nreq = len(prog.checked) + len(prog.violations)
-    if nreq < 60:
-        raise AnalysisBroken("only %d cursor reads/advances recognised in JsonParser (floor 60)" % nreq)
+    # instance floor (70 on the pinned tree).  Kept well below it: merging duplicated tails (the `,`/`]` and `,`/`}` handling, the literal compare+advance)
+    # into shared methods removes reads without removing any from the parser's behaviour; what the floor guards against is a fact base that lost them
+    if nreq < 45:
+        raise AnalysisBroken("only %d cursor reads/advances recognised in JsonParser (floor 45)" % nreq)
     r.instance(nreq)
     for (f, e, what) in prog.checked:
         r.ok("%s: %s inside the input" % (last(f.name), what))
@@ -471,6 +587,23 @@ def depth_counter_balance(ctx, r, pv, F):
                      okdesc="%s: %s balanced at the successful return (line %s)" % (last(g.name), fname, e.line if e is not None else g.endline))
 
 
+def result_container(g):
+    """name of the local container a container parser builds: the one local whose value every `out = Json(std::move(X))` assigns to the out-parameter"""
+    names = set()
+    for e in g.stmts():
+        n = e.node
+        if n.get("k") == "opcall" and n.get("op") == "=" and len(n.get("args", [])) == 2 and strip_casts(n["args"][0]).get("parm") is not None:
+            for x in walk(n["args"][1]):
+                if x.get("k") == "ctor" and last(x.get("cls", "")) == "Json":
+                    for a in x.get("args", []):
+                        v = strip_wrappers(a)
+                        if v is not None and v.get("k") == "var" and v.get("parm") is None and ("vector" in (v.get("t") or "") or "map" in (v.get("t") or "")):
+                            names.add(v["n"])
+    if len(names) != 1:
+        raise AnalysisBroken("%s: the container handed to the out-parameter is not one local (%s)" % (last(g.name), sorted(names)))
+    return names.pop()
+
+
 def _loop_guard_path(f, app, chk_block):
     """an append element can be reached again from itself without passing the limit check block"""
     return search(f, app, lambda x: x is app, stop=lambda x: x.block is chk_block, eh=False)
@@ -527,16 +660,33 @@ def r2(ctx, r):
             if not r.expect(len(ia) == 1 and ia[0] < len(g.params), pv, e, "depth forwarded: %s" % last(e.node["callee"]), "_parseValue does not forward its depth to %s" % last(e.node["callee"]), okdesc="depth forwarded"):
                 continue
             gname = g.params[ia[0]].get("n")
-            rec = [x for x in g.stmts() if x.node.get("k") == "mcall" and x.node.get("callee") == pv.name]
+            # recursive calls: in the container parser itself, or in a parser method it hands its depth to (followed, with the amount added on the way)
+            pm = {f.name: f for f in parser_methods(ctx)}
+            rec, work, seen_h = [], [(g, gname, 0)], set()
+            while work:
+                h, hname, add = work.pop()
+                if (h.name, hname) in seen_h:
+                    continue
+                seen_h.add((h.name, hname))
+                if any(counter_step(x.node, lambda y: y.get("k") == "var" and y["n"] == hname) is not None for x in h.stmts()):
+                    raise AnalysisBroken("%s writes its depth parameter `%s`" % (last(h.name), hname))
+                for x in h.stmts():
+                    if x.node.get("k") != "mcall" or x.node.get("callee") not in pm:
+                        continue
+                    if x.node["callee"] == pv.name:
+                        rec.append((h, hname, add, x))
+                    elif pm[x.node["callee"]] not in (pa, po):
+                        for i, a_ in enumerate(x.node.get("args", [])):
+                            fm = lin(a_)
+                            if fm is not None and list(fm[1]) == [hname] and i < len(pm[x.node["callee"]].params) and "&" not in (pm[x.node["callee"]].params[i].get("t") or ""):
+                                work.append((pm[x.node["callee"]], pm[x.node["callee"]].params[i]["n"], add + fm[0]))
             if not rec:
                 raise AnalysisBroken("%s: recursive _parseValue call not found" % last(g.name))
-            if any(counter_step(x.node, lambda y: y.get("k") == "var" and y["n"] == gname) is not None for x in g.stmts()):
-                raise AnalysisBroken("%s writes its depth parameter `%s`" % (last(g.name), gname))
-            for x in rec:
+            for (h, hname, add, x) in rec:
                 fm = lin(x.node["args"][ip]) if ip < len(x.node["args"]) else None
                 r.instance()
-                r.expect(fm is not None and list(fm[1]) == [gname] and fm[0] >= 1, g, x, "depth not incremented", "%s recurses into _parseValue with depth argument `%s` (must be %s + k, k >= 1, or the depth limit never triggers)"
-                         % (last(g.name), show(x.node["args"][ip]) if ip < len(x.node["args"]) else "?", gname), okdesc="%s: _parseValue(…, %s + %s)" % (last(g.name), gname, fm[0] if fm else "?"))
+                r.expect(fm is not None and list(fm[1]) == [hname] and fm[0] + add >= 1, h, x, "depth not incremented", "%s recurses into _parseValue with depth argument `%s` (must be %s + k, k >= 1, or the depth limit never triggers)"
+                         % (last(h.name), show(x.node["args"][ip]) if ip < len(x.node["args"]) else "?", hname), okdesc="%s: _parseValue(…, %s + %s)" % (last(h.name), hname, (fm[0] + add) if fm else "?"))
     elif carrier.get("k") == "member" and field_of(carrier) and field_of(carrier).startswith(JP + "::"):
         # (b) member form: one counter shared by all activations
         depth_counter_balance(ctx, r, pv, field_of(carrier))
@@ -549,38 +699,52 @@ def r2(ctx, r):
             if e.node.get("k") == "mcall" and e.node.get("callee") in (pa.name, po.name) and f is not pv:
                 r.instance()
                 r.fail(f, e, "container parser called outside _parseValue", "%s calls %s directly, bypassing the depth test in _parseValue" % (last(f.name), last(e.node["callee"])))
-    # size limits precede growth
-    specs = [
-        (pa, "arr", ("push_back", "emplace_back", "insert"), "arrayItemsMax", ">="),
-        (po, "obj", ("operator[]", "insert", "emplace", "insert_or_assign", "try_emplace"), "membersMax", ">="),
-    ]
-    for (g, var, growers, limit, _) in specs:
-        apps = []
+    # size limits precede growth.  The container is the local whose value the function hands to its out-parameter (`out = Json(std::move(X))`),
+    # not a name; a parser method that receives it by non-const reference (one `"key": value` pair extracted into a helper) is followed one level:
+    # the call is the growth site in the caller, and inside the helper the growth must not sit in a loop of its own.
+    fam = {f.name: f for f in parser_methods(ctx)}
+    GROW = ("push_back", "emplace_back", "insert", "emplace", "insert_or_assign", "try_emplace", "emplace_hint")
+
+    def grows(n, var):
+        return (n.get("k") == "mcall" and last(n.get("callee", "")) in GROW and strip_casts(n.get("obj") or {}).get("n") == var) or \
+               (n.get("k") == "opcall" and n.get("op") == "[]" and strip_casts(n["args"][0]).get("n") == var and "map" in (strip_casts(n["args"][0]).get("t") or "map"))
+    member_stores = []           # (function, element) of every store into the object's map, for the duplicate-key clause
+    for (g, limit) in ((pa, "arrayItemsMax"), (po, "membersMax")):
+        var = result_container(g)
+        apps = [e for e in g.stmts() if grows(e.node, var)]
+        inner = []
         for e in g.stmts():
             n = e.node
-            if n.get("k") == "mcall" and last(n.get("callee", "")) in growers and strip_casts(n.get("obj") or {}).get("n") == var:
-                apps.append(e)
-            if n.get("k") == "opcall" and n.get("op") == "[]" and strip_casts(n["args"][0]).get("n") == var:
-                apps.append(e)
+            if n.get("k") == "mcall" and n.get("callee") in fam and fam[n["callee"]] not in (pv, pa, po):
+                for i, a_ in enumerate(n.get("args", [])):
+                    h = fam[n["callee"]]
+                    if strip_casts(a_).get("k") == "var" and strip_casts(a_)["n"] == var and i < len(h.params) and "&" in (h.params[i].get("t") or "") and "const" not in (h.params[i].get("t") or ""):
+                        hs = [x for x in h.stmts() if grows(x.node, h.params[i]["n"])]
+                        if any(search(h, x, lambda y, x=x: y is x, eh=False) is not None for x in hs) or var_written(h, h.params[i]["n"]) and not hs:
+                            raise AnalysisBroken("%s grows the container it receives from %s inside a loop of its own (or in a way the limit clause does not follow)" % (last(h.name), last(g.name)))
+                        if hs:
+                            apps.append(e)
+                            inner += [(h, x) for x in hs]
+        if g is po:
+            member_stores = [(g, e) for e in apps if e.node.get("k") != "mcall" or e.node.get("callee") not in fam] + inner
         cbs = [b for b in g.blocks.values() if limit_test(b, var + ".size()", limit)]
         if not apps:
             raise AnalysisBroken("%s: no growth site of `%s` found" % (last(g.name), var))
         for e in apps:
             r.instance()
             ok = len(cbs) == 1 and limit_test(cbs[0], var + ".size()", limit) in (">=", ">") and dominated_by_edge(g, e, cbs[0], 1, eh=False) and _loop_guard_path(g, e, cbs[0]) is None
-            unless_moved(bool(cbs), list(g.stmts()), ("_parseValue", "_skipWhitespace", "_parseString"), "%s limit test" % limit)
+            unless_moved(bool(cbs), [x for x in g.stmts() if x not in apps], ("_parseValue", "_skipWhitespace", "_parseString"), "%s limit test" % limit)
             r.expect(ok, g, e, "growth before limit: %s" % var, "%s grows `%s` on a path (or loop iteration) that does not pass the false edge of `%s.size() >= _limits.%s`" % (last(g.name), var, var, limit),
                      okdesc="%s: %s grows only behind the %s test" % (last(g.name), var, limit))
     # duplicate keys: the later member replaces the earlier one (what RFC 8259 leaves open, every common decoder — and the
     # property's reference decoder — resolves as "last wins")
-    stores = [e for e in po.stmts() if (e.node.get("k") == "mcall" and last(e.node.get("callee", "")) in ("emplace", "insert", "try_emplace", "insert_or_assign", "emplace_hint") and strip_casts(e.node.get("obj") or {}).get("n") == "obj")
-              or (assign_parts(e.node) and strip_casts(assign_parts(e.node)[0]).get("k") == "opcall" and strip_casts(assign_parts(e.node)[0]).get("op") == "[]" and strip_casts(strip_casts(assign_parts(e.node)[0])["args"][0]).get("n") == "obj")]
     r.instance()
-    if not stores:
+    if not member_stores:
         raise AnalysisBroken("_parseObject: member store not found")
+    stores = [e for (_, e) in member_stores]
     okd = all((e.node.get("k") != "mcall") or last(e.node.get("callee", "")) == "insert_or_assign" for e in stores)
-    r.expect(okd, po, stores[0], "duplicate key keeps the first value", "_parseObject stores a member with %s, which leaves an existing key untouched: for `{\"a\":1,\"a\":2}` the first value wins, while the reference decoder "
-             "(and the assignment `obj[key] = value`) keep the last" % (last(stores[0].node.get("callee", "")) if stores[0].node.get("k") == "mcall" else "?"), okdesc="duplicate keys: last member wins (assignment through operator[])")
+    r.expect(okd, member_stores[0][0], stores[0], "duplicate key keeps the first value", "%s stores a member with %s, which leaves an existing key untouched: for `{\"a\":1,\"a\":2}` the first value wins, while the reference decoder "
+             "(and the assignment `obj[key] = value`) keep the last" % (last(member_stores[0][0].name), last(stores[0].node.get("callee", "")) if stores[0].node.get("k") == "mcall" else "?"), okdesc="duplicate keys: last member wins (assignment through operator[])")
     # integers that do not fit 64 bits fall back to the floating-point conversion instead of failing
     ib = [b for b in pn_(ctx).blocks.values() if b.cond is not None and common.cmp_parts(b.cond) and ".ec" in show(common.cmp_parts(b.cond)[1]) and "errc" in show(common.cmp_parts(b.cond)[2])]
     r.instance()
@@ -727,6 +891,9 @@ def r3(ctx, r):
         return
     if elem_dom(uf, hcalls[1], hcalls[0]):
         hcalls.reverse()                 # decoding order, not block numbering
+    if any(not h.node.get("args") for h in hcalls):
+        raise AnalysisBroken("_parseHex4 hands its result back as a return value (no out-parameter): the \\u clauses identify the decoded units through the "
+                             "out-parameter variable and do not follow a returned optional / pair")
     hi_var = strip_casts(hcalls[0].node["args"][0]).get("n")
     lo_var = strip_casts(hcalls[1].node["args"][0]).get("n")
     cpv = strip_casts(enc[0].node["args"][1]).get("n")
@@ -749,9 +916,22 @@ def r3(ctx, r):
     okh = False
     if len(fc) == 1:
         a = fc[0].node["args"]
-        span = lin(a[1])
+
+        def plin(n):
+            """linear form with named constants folded and const pointer locals (`end = first + 4`) replaced by their definition"""
+            fm = lin(fold_named(hex4, n))
+            for _ in range(4):
+                if fm is None or len(fm[1]) != 1 or (strip_casts(a[0]).get("k") == "var" and fm[1][0] == strip_casts(a[0])["n"]):
+                    break
+                d = [v for e in hex4.stmts() if e.node.get("k") == "decl" for v in e.node["vars"] if v["n"] == fm[1][0] and "*" in (v.get("t") or "") and "const" in (v.get("t") or "").split("*")[-1] and isinstance(v.get("init"), dict)]
+                g = lin(fold_named(hex4, d[0]["init"])) if len(d) == 1 else None
+                if g is None or len(g[1]) != 1:
+                    break
+                fm = form(fm[0] + g[0], g[1])
+            return fm
+        span = plin(a[1])
         base = const_value(strip_casts(a[3])) if len(a) > 3 else 10
-        cmpok = any(common.cmp_parts(x) and common.cmp_parts(x)[0] == "!=" and ".ptr" in show(common.cmp_parts(x)[1]) and lin(common.cmp_parts(x)[2]) == span
+        cmpok = any(common.cmp_parts(x) and common.cmp_parts(x)[0] == "!=" and ".ptr" in show(common.cmp_parts(x)[1]) and plin(common.cmp_parts(x)[2]) == span
                     for b in hex4.blocks.values() if b.cond is not None for x in walk(b.cond))
         outp = strip_casts(a[2]).get("parm") is not None or strip_casts(a[2]).get("k") == "var"
         okh = span is not None and span[0] == 4 and base == 16 and cmpok and outp
@@ -1452,6 +1632,40 @@ def r4(ctx, r):
              okdesc="integral doubles get '.0'")
 
 
+def bounded_loop_steps(f):
+    """ids of the blocks that hold the step of a loop bounded independently of the parser's input position"""
+    out = set()
+    loops = [b for b in f.blocks.values() if b.term and b.term.get("k") in ("WhileStmt", "ForStmt", "DoStmt", "CXXForRangeStmt")]
+    for b in loops:
+        if b.term["k"] == "CXXForRangeStmt":
+            out |= {e.block.id for e in f.stmts() if e.node.get("k") in ("un", "opcall") and "++" in (e.node.get("op") or "") and "__begin" in show(e.node)}
+    written = {}
+
+    def steps_of(name):
+        if name not in written:
+            written[name] = [(e, counter_step(e.node, lambda x: x.get("k") == "var" and x["n"] == name)) for e in f.stmts()]
+            written[name] = [(e, c) for (e, c) in written[name] if c is not None]
+        return written[name]
+    from ..finite import flatten_fact
+    conds = [(b, c) for b in f.blocks.values() if b.cond is not None and b.term and b.term.get("k") in ("WhileStmt", "ForStmt", "DoStmt", "BinaryOperator") for (c, _) in flatten_fact(b.cond, True)]
+    for b, c in conds:
+        for (op, l, rr) in common.cmp_both(c):
+            l = strip_casts(l)
+            if l.get("k") != "var":
+                continue
+            st = steps_of(l["n"])
+            if not st or any(c_ == "other" or c_ == 0 for (_, c_) in st):
+                continue
+            up = all(c_ > 0 for (_, c_) in st)
+            down = all(c_ < 0 for (_, c_) in st)
+            if not ((up and op in ("<", "<=", "!=")) or (down and op in (">", ">=", "!="))):
+                continue
+            if any(steps_of(x["n"]) for x in walk(rr) if x.get("k") == "var") or any(x.get("k") in ("call", "mcall", "opcall") and not (x.get("k") == "mcall" and last(x.get("callee", "")) in ("size", "length")) for x in walk(rr)):
+                continue
+            out |= {e.block.id for (e, _) in st}
+    return out
+
+
 def r5(ctx, r):
     funcs = parser_methods(ctx)
     n = 0
@@ -1491,6 +1705,9 @@ def r5(ctx, r):
             if nn.get("k") == "mcall" and nn.get("callee") in may_adv:
                 adv.add(e.block.id)
                 via_callee.add(e.block.id)
+        # loops that terminate for a reason of their own, whatever the input: a range-for (its iterator step), and a counted loop — a local
+        # integer stepped by a constant of one sign and compared, in the loop's condition, with a bound nothing in the function writes
+        adv |= bounded_loop_steps(f)
         # cycle detection in the CFG with the advancing blocks removed
         color = {}
         cyc = []
@@ -1527,10 +1744,62 @@ def r5(ctx, r):
     r.note("%d loops, %d loop sites" % (n, sites))
 
 
+def dispatch_exact(ctx, pv):
+    """{first byte: name of the parser method _parseValue returns the result of, or None when it rejects the byte}, by exact evaluation of the branch
+    conditions on the dispatch character (the char local initialised with `_text[_pos]`)"""
+    dv = [(e, v) for e in pv.stmts() if e.node.get("k") == "decl" and "root" in e.raw for v in e.node["vars"]
+          if isinstance(v.get("init"), dict) and strip_casts(v["init"]).get("k") == "opcall" and strip_casts(v["init"]).get("op") == "[]" and is_text(strip_casts(v["init"])["args"][0])
+          and is_pos(strip_casts(v["init"])["args"][1]) and (v.get("t") or "").replace("const ", "").strip() in ("char", "unsigned char")]
+    if len(dv) != 1:
+        raise AnalysisBroken("_parseValue: no switch and no single character local read from _text[_pos] to dispatch on")
+    de, var = dv[0]
+    ev = ByteEval(ctx.fb(), JS, JF)
+    signed = "unsigned" not in (var.get("t") or "")
+    table = {}
+    for val in range(256):
+        env = {var["n"]: (val - 256 if signed and val >= 128 else val)}
+        bid, first, res = de.block.id, de.idx + 1, "?"
+        try:
+            for _ in range(80):
+                b = pv.blocks[bid]
+                for e in b.elems[first:]:
+                    if e.kind != "stmt" or "root" not in e.raw:
+                        continue
+                    n = e.node
+                    if n.get("k") == "ret":
+                        v = strip_casts(n["v"]) if isinstance(n.get("v"), dict) else {}
+                        res = last(v["callee"]) if v.get("k") == "mcall" and (v.get("callee") or "").startswith(JP + "::") else None if const_value(v) == 0 else "?"
+                        break
+                    if b.cond is not None and n.get("id") in (b.cond.get("id"), (b._raw_cond() or {}).get("id")):
+                        continue
+                    if assign_parts(n) is not None and field_of(assign_parts(n)[0]) and not is_pos(assign_parts(n)[0]):
+                        continue                          # `_error = "…"`
+                    if n.get("k") in ("bin", "un", "cast", "var", "member", "char", "int", "bool") and not is_assign(n):
+                        continue
+                    raise NotEvaluable("statement `%s` between the dispatch character and the return" % show(n)[:50])
+                if res != "?" or bid == pv.exit:
+                    break
+                first = 0
+                if b.cond is not None and len(b.succs) == 2:
+                    bid = b.succs[0] if ev._int(b.cond, env) else b.succs[1]
+                else:
+                    live = [x for x in b.succs if x is not None]
+                    if len(live) != 1:
+                        raise NotEvaluable("block B%d" % bid)
+                    bid = live[0]
+            if res == "?":
+                raise NotEvaluable("no return reached")
+        except NotEvaluable as ex:
+            raise AnalysisBroken("_parseValue: the dispatch for the first byte 0x%02x cannot be evaluated exactly — %s" % (val, ex))
+        table[val] = res
+    return table
+
+
 def r7(ctx, r):
     """first-character dispatch and literal tables of the value parser"""
     pv = jp(ctx, "_parseValue")
-    sw = switch_on(pv, "c")
+    sws = [b for b in pv.blocks.values() if b.term and b.term.get("k") == "SwitchStmt"]
+    sw = switch_on(pv, "c") if sws else None
     want = {ord("n"): "_parseNull", ord("t"): "_parseBool", ord("f"): "_parseBool", ord('"'): "_parseString", ord("["): "_parseArray", ord("{"): "_parseObject", ord("-"): "_parseNumber"}
     want.update({ord(str(d)): "_parseNumber" for d in range(10)})
     got = {}
@@ -1539,7 +1808,11 @@ def r7(ctx, r):
         for lb in (b.raw.get("labels") or ([b.label] if b.label else [])):
             if lb and lb.get("k") == "case" and lb.get("v"):
                 labels.setdefault(b.id, []).append(const_value(lb["v"]))
-    for si in range(len(sw.succs)):
+    if sw is None:
+        # no switch (an if / else-if chain, range tests for the digits): the table is computed exactly instead — for each first byte the branch
+        # conditions of _parseValue are evaluated from the point where the dispatch character is read, up to the return that hands the value on
+        got, labels = dispatch_exact(ctx, pv), {}
+    for si in (range(len(sw.succs)) if sw is not None else ()):
         lab = sw.edge_label(si)
         if not lab or lab == "default":
             continue
@@ -1685,7 +1958,8 @@ def key_of_var(n):
 def anchors(ctx, r):
     fb = ctx.fb()
     # (the nesting depth is no longer anchored by name: R2 reads its carrier — parameter or member — off the depthMax comparison)
-    tab = [(jp(ctx, "_parseArray"), ["arr"]), (jp(ctx, "_parseObject"), ["obj"]), (jp(ctx, "_parseString"), ["str", "c"]),
+    # (nor are the array / object containers: R2 takes the local handed to the out-parameter)
+    tab = [(jp(ctx, "_parseString"), ["str", "c"]),
            (fb.func(JS + "::_escapeString", file_suffix=JF), ["c", "result"]), (jp(ctx, "_appendUtf8"), ["cp", "str"])]
     for f, names in tab:
         common.require_names(f, names)
